@@ -100,6 +100,7 @@ func New(options DBOptions) *DB {
 	}
 
 	compactor.SmallestLevelSize = verifhook.Tune("dkv.smallestLevelSize", compactor.SmallestLevelSize)
+	options.MemTableSize = uint64(verifhook.Tune("dkv.memTableSize", int64(options.MemTableSize)))
 	compactor.MaxSizeAmplificationPercent = int(verifhook.Tune("dkv.maxSizeAmpPct", int64(compactor.MaxSizeAmplificationPercent)))
 
 	db := &DB{
